@@ -28,6 +28,7 @@ from ..report import Check
 def run(chk: Check) -> None:
     ix = get_index()
     run_crawl_order(chk, ix)
+    run_abspath_normalised(chk, ix)
     r1 = chk.rule("R18.1", "load_graph: every insertion of a State into the graph is dominated by the duplicate test for its kind (module id already in graph / file already seen under another id), whose clash branch reports a blocker and raises", floor=5)
     lg = ix.func("mypy.build.load_graph")
     g = CFG(lg.node)
@@ -127,3 +128,42 @@ def run_crawl_order(chk: Check, ix) -> None:
         r3.ok(key, f.loc(t.stmt))
     else:
         r3.violation(key, f.loc(t.stmt), "a directory that is an explicit package base can be crawled past (for example when it contains an __init__.py): files below it get a module name that includes the base directory's own name, while imports of them resolve relative to the base - the same file under two names")
+
+
+def run_abspath_normalised(chk: Check, ix) -> None:
+    """R18.4: the key of the found-twice table is a normalised absolute path."""
+    r4 = chk.rule("R18.4", "load_graph detects one file reached under two module names by looking State.abspath up in a table of the files seen so far; module-finder paths are normalised, so State.__init__ normalises too: abspath is the path itself when it is absolute, and otherwise a join with the working directory passed through os.path.normpath / abspath / realpath; a plain join leaves `./` and `..` of a command-line spelling in the key, the lookup misses, and `cd x; mypy .` checks the same file twice under two names without the error", floor=3)
+    init = ix.func("mypy.build.State.__init__")
+    asg = [a for a in ast.walk(init.node) if isinstance(a, ast.Assign) and len(a.targets) == 1 and norm(a.targets[0]) == "self.abspath"]
+    if not asg:
+        raise AnalysisError("State.__init__ no longer assigns self.abspath")
+    from ..cfg import branch_conditions
+    par = init.module.parents()
+    for a in asg:
+        v = a.value
+        pos, neg = branch_conditions(par, init.node, a)
+        key = f"State.__init__: `{norm(a)[:70]}` is absolute and normalised"
+        if isinstance(v, ast.Name):
+            if any("isabs" in norm(t) for t in pos):
+                r4.ok(key, init.loc(a), "taken as it is only when os.path.isabs(path)")
+            else:
+                r4.violation(key, init.loc(a), "the path is taken as it is without an isabs test")
+        elif isinstance(v, ast.Call) and norm(v.func) in ("os.path.normpath", "os.path.abspath", "os.path.realpath", "normpath", "abspath", "realpath"):
+            r4.ok(key, init.loc(a))
+        else:
+            r4.violation(key, init.loc(a), f"`{norm(v)[:60]}` is not passed through normpath/abspath/realpath: `./a.py` and `../x/a.py` give keys that differ from the module finder's normalised path of the same file, so the found-twice lookup in load_graph misses")
+    lg = ix.func("mypy.build.load_graph")
+    uses = [s for s in ast.walk(lg.node) if isinstance(s, ast.Subscript) and norm(s.value) == "seen_files"] + [c for c in ast.walk(lg.node) if isinstance(c, ast.Compare) and any(norm(x) == "seen_files" for x in c.comparators)]
+    key = "load_graph keys its table of seen files by State.abspath"
+    abs_locals = {norm(a.targets[0]) for a in ast.walk(lg.node) if isinstance(a, ast.Assign) and len(a.targets) == 1 and isinstance(a.targets[0], ast.Name) and isinstance(a.value, ast.Attribute) and a.value.attr == "abspath"}
+    init_ok = any(isinstance(a, ast.Assign) and norm(a.targets[0]) == "seen_files" and "abspath" in norm(a.value) for a in ast.walk(lg.node))
+
+    def keyed_by_abspath(u: ast.AST) -> bool:
+        k = u.slice if isinstance(u, ast.Subscript) else u.left
+        return "abspath" in norm(k) or norm(k) in abs_locals
+    if uses and init_ok and all(keyed_by_abspath(u) for u in uses):
+        r4.ok(key, lg.loc(uses[0]), f"{len(uses)} uses")
+    elif uses:
+        r4.violation(key, lg.loc(uses[0]), "seen_files is keyed by something other than the normalised absolute path")
+    else:
+        raise AnalysisError("load_graph: seen_files table not found")
